@@ -196,11 +196,12 @@ Definition view_pph (h : pph) : peer_view :=
 Definition wf_tlv (t : N * bytes) : Prop := fst t < 65536 /\ N.of_nat (length (snd t)) < 65536.
 
 (* the messages the daemon emits (daemon/src/bmp.rs): Initiation, Peer Up,
-   Peer Down, Route Monitoring; with well-typed fields and embedded blobs that
-   are single frames of the right BGP type *)
+   Peer Down, Route Monitoring; with well-typed fields and, for Peer Up / Peer
+   Down, embedded blobs that are single frames of the right BGP type (an OPEN or
+   a NOTIFICATION is never split by the BGP encoder) *)
 Definition wf_msg (m : bmp_msg) : Prop :=
   match m with
-  | RouteMonitoring h blob => wf_pph h /\ frame_ok BGP_UPDATE blob
+  | RouteMonitoring h blob => wf_pph h
   | PeerDown h r =>
       wf_pph h /\ (match r with
        | LocalNotification b | RemoteNotification b => frame_ok BGP_NOTIFICATION b
@@ -213,12 +214,12 @@ Definition wf_msg (m : bmp_msg) : Prop :=
   | _ => False
   end.
 
-(* `len as u32` does not truncate *)
+(* `len as u32` does not truncate: the bytes of one item, were they written as
+   one message, fit the 32-bit Message Length (a fortiori each message does) *)
 Definition msg_len_ok (m : bmp_msg) : Prop := N.of_nat (6 + length (body_encode m)) < 2 ^ 32.
 
 Definition view_of (m : bmp_msg) : option bmp_view :=
   match m with
-  | RouteMonitoring h blob => Some (VRouteMonitoring (view_pph h) blob)
   | PeerDown h r =>
       Some (VPeerDown (view_pph h) (reason_code r)
               (match r with LocalNotification b | RemoteNotification b => Some b | _ => None end)
@@ -227,6 +228,16 @@ Definition view_of (m : bmp_msg) : option bmp_view :=
   | Initiation tlvs => Some (VInitiation tlvs)
   | _ => None
   end.
+
+(* The intended content of one item handed to the encoder, as the list of BMP
+   messages a reader must see.  A monitored UPDATE that the BGP encoder rendered
+   as the frames [fs] (at least one) is one Route Monitoring message per frame,
+   all under the same per-peer header (RFC 7854 section 4.6: one UPDATE PDU per
+   message); every other item is one message. *)
+Inductive views : bmp_msg -> list bmp_view -> Prop :=
+| views_rm : forall h blob fs, fs <> [] -> frames_ok BGP_UPDATE fs blob ->
+    views (RouteMonitoring h blob) (map (VRouteMonitoring (view_pph h)) fs)
+| views_one : forall m v, view_of m = Some v -> views m [v].
 
 (* "a common header whose length equals the bytes that follow": the Message
    Length field of [msg] equals the length of [msg] (RFC 7854 counts the header) *)
